@@ -82,6 +82,9 @@ class EvalContext(NamedTuple):
 
     stats_time: Dict[ProcessingStage, float]
 
+    # What identifies the actual arguments of the calls kept so far in this evaluation, by path.
+    kept_args: Dict[DDSPath, Any]
+
 
 # The name of a codec protocol.
 ProtocolRef = NewType("ProtocolRef", str)
